@@ -78,6 +78,9 @@ ReadAfterLoad == \A p \in Comps : cpc[p] = "atExit" => loaded
 IsolatedResults == \A r \in Runs : Halted(Compile(rast[r]), rst[r]) =>
                       /\ rst[r].err = "none" /\ rst[r].res = Denote(rast[r]) /\ rst[r].calls = Designated(rast[r])
 NoDeadlock == AllDone \/ ENABLED Next
+\* the lock protocol proved for any number of compilers and lookups (LockProto.tla, TLAPS): this model refines it
+LP == INSTANCE LockProto WITH pc <- cpc
+RefinesLockProto == LP!Spec
 \* used with -simulate: print every complete schedule as JSON
 EmitSchedule == AllDone => PrintT("SCHEDJSON " \o ToJson([comps |-> [p \in Comps |-> Render(cast[p], "min", 0)],
                                                             runs |-> [r \in Runs |-> Render(rast[r], "min", 0)],
